@@ -142,13 +142,14 @@ class G(object):
             items.append(it)
         return {'t': 'list', 'kind': kind, 'items': items}
 
-    def tabular(self, depth):
+    def tabular(self, depth, nested_ok=True):
         r = self.r
-        ncol = r.randint(1, 4)
-        aligns = [r.choice('lcr') for _ in range(ncol)]
+        rich = self.o.get('rich_tables')
+        ncol = r.randint(1, 5 if rich else 4)
+        aligns = [r.choice('lcrp' if rich else 'lcr') for _ in range(ncol)]
         bars = [r.random() < 0.3 for _ in range(ncol + 1)]
         rows = []
-        for _ in range(r.randint(1, 4)):
+        for _ in range(r.randint(1, 6 if rich else 4)):
             cells = []
             c = 0
             while c < ncol:
@@ -158,10 +159,37 @@ class G(object):
                 cell = {'span': span, 'c': self.inlines(min(depth, 1), False, r.choice([0, 1, 1, 2]), True, True)}
                 if span > 1 or r.random() < 0.05:
                     cell['multi'] = r.choice('lcr')
+                if rich:
+                    k = r.random()
+                    if k < 0.12:
+                        cell['decl'] = r.choice(['bfseries', 'itshape', 'ttfamily', 'small'])
+                        if not cell['c']:
+                            cell['c'] = [self.text()]
+                    elif k < 0.18 and nested_ok and 'multi' not in cell:
+                        cell['nested'] = self.tabular(0, nested_ok=False)
+                    elif k < 0.26:
+                        cell['group'] = True
+                        if not cell['c']:
+                            cell['c'] = [self.text()]
                 cells.append(cell)
                 c += span
-            rows.append({'cells': cells, 'hline': r.random() < 0.3, 'cline': None})
-        return {'t': 'tabular', 'aligns': aligns, 'bars': bars, 'rows': rows, 'hline_end': r.random() < 0.3}
+            row = {'cells': cells, 'hline': r.random() < 0.3, 'cline': None}
+            if rich and not row['hline'] and r.random() < 0.25:
+                # a \cline aligned with the cell boundaries of this row
+                starts = []
+                col = 1
+                for cell in cells:
+                    starts.append((col, col + cell['span'] - 1))
+                    col += cell['span']
+                i = r.randrange(len(starts))
+                j = r.randrange(i, len(starts))
+                row['cline'] = [starts[i][0], starts[j][1]]
+            rows.append(row)
+        node = {'t': 'tabular', 'aligns': aligns, 'bars': bars, 'rows': rows, 'hline_end': r.random() < 0.3}
+        if rich:
+            node['at'] = [r.random() < 0.2 for _ in range(ncol + 1)]
+            node['star'] = r.random() < 0.3
+        return node
 
     def dmath(self):
         r = self.r
@@ -385,25 +413,62 @@ def p_blocks(blocks, ind=''):
     return SEP[0].join(out)
 
 
-def p_tabular(b):
-    spec = ''
+def colspec(b):
+    """column specification text; with rich tables: @{} expressions and *{n}{..} repetition"""
+    cols = []
+    n = len(b['aligns'])
+    at = b.get('at') or [False] * (n + 1)
     for i, a in enumerate(b['aligns']):
-        if b['bars'][i]:
-            spec += '|'
-        spec += a
-    if b['bars'][-1]:
-        spec += '|'
-    s = '\\begin{tabular}{%s}\n' % spec
+        pre = ''
+        if i == 0:
+            if at[0]:
+                pre += '@{}'
+            if b['bars'][0]:
+                pre += '|'
+        item = ('p{2cm}' if a == 'p' else a)
+        post = ''
+        if at[i + 1]:
+            post += '@{ }' if i + 1 < n else '@{}'
+        if b['bars'][i + 1]:
+            post += '|'
+        cols.append((pre, item + post))
+    out = ''
+    i = 0
+    while i < n:
+        pre, item = cols[i]
+        j = i
+        while b.get('star') and j + 1 < n and cols[j + 1] == ('', item) and '@' not in item:
+            j += 1
+        if j > i and (pre == '' or True):
+            out += pre + '*{%d}{%s}' % (j - i + 1, item)
+            i = j + 1
+        else:
+            out += pre + item
+            i += 1
+    return out
+
+
+def p_cell(c):
+    txt = p_inlines(c['c'])
+    if c.get('group'):
+        txt = '{' + txt + '}'
+    if c.get('decl'):
+        txt = '\\%s %s' % (c['decl'], txt)
+    if c.get('nested'):
+        txt = txt + ' ' + p_tabular(c['nested']).rstrip('\n')
+    if 'multi' in c:
+        txt = '\\multicolumn{%d}{%s}{%s}' % (c['span'], c['multi'], txt)
+    return txt
+
+
+def p_tabular(b):
+    s = '\\begin{tabular}{%s}\n' % colspec(b)
     for row in b['rows']:
         if row['hline']:
             s += '\\hline\n'
-        cells = []
-        for c in row['cells']:
-            txt = p_inlines(c['c'])
-            if 'multi' in c:
-                txt = '\\multicolumn{%d}{%s}{%s}' % (c['span'], c['multi'], txt)
-            cells.append(txt)
-        s += ' & '.join(cells) + ' \\\\\n'
+        elif row.get('cline'):
+            s += '\\cline{%d-%d}\n' % tuple(row['cline'])
+        s += ' & '.join(p_cell(c) for c in row['cells']) + ' \\\\\n'
     if b['hline_end']:
         s += '\\hline\n'
     return s + '\\end{tabular}\n'
@@ -479,9 +544,7 @@ def block_markers(blocks, out):
                     inline_markers(it['term'], out)
                 block_markers(it['c'], out)
         elif t == 'tabular':
-            for row in b['rows']:
-                for c in row['cells']:
-                    inline_markers(c['c'], out)
+            tabular_markers(b, out)
         elif t in ('env', 'theorem'):
             if t == 'theorem' and b['title'] is not None:
                 inline_markers(b['title'], out)
@@ -499,6 +562,18 @@ def block_markers(blocks, out):
             block_markers(b['c'], out)
             if b['caption'] is not None and not b['caption_first']:
                 inline_markers(b['caption'], out)
+
+
+def cell_markers(c, out):
+    inline_markers(c['c'], out)
+    if c.get('nested'):
+        tabular_markers(c['nested'], out)
+
+
+def tabular_markers(b, out):
+    for row in b['rows']:
+        for c in row['cells']:
+            cell_markers(c, out)
 
 
 def sec_markers(s, out):
